@@ -1,215 +1,279 @@
-import Frp.Driver.Proto
-import Frp.Props.C18
+import Frp.Engines.ConfBase
 /-
-  Driver engine "conf" (C18): replays the harness trace on the record model interpreting the
-  regenerated marshal/unmarshal tables, on the textual-quantity models and on the validation model,
-  and evaluates the C18 predicates on the implementation's own answers.
+  Driver engine "conf" (C18), second part: one logical definition through files on disk, JSON, flags
+  (`cf`), raw flag parsing on the regenerated registration tables (`fl`, `dfl`), client-side and server
+  validators (`cval`, `sval`), `parseNumberRange`, `BandwidthQuantity.Equal`, and the differential
+  loader ops (`load`, `sload`, `sx`, `cx`, `env`).  Everything else is answered by `ConfBase`.
 -/
 namespace Frp
 namespace Engines
-open Proto ProxyMsg Gen.ProxyMsg ConfNum Validate
+open Proto ProxyMsg Gen.ProxyMsg ConfNum Validate Flags Gen.Flags TypedConf Gen.TypedConf
 
 namespace Conf
 
-def hexOf (s : Str) : String := String.ofList (s.flatMap (fun b => [hexDigit (b / 16), hexDigit (b % 16)]))
-def unhex (s : String) : Option Str := unhexAux s.toList
-
-def splitFirst (s : String) (sep : String) : Option (String × String) :=
-  match s.splitOn sep with
-  | [] => none
-  | [_] => none
-  | a :: rest => some (a, sep.intercalate rest)
-
-def tailStr (s : String) : String := String.ofList (s.toList.drop 1)
-
-def parseValue (s : String) : Option Value :=
-  if s = "z" then some .zero else
-  match s.toList with
-  | 's' :: _ => (unhex (tailStr s)).map .str
-  | 'b' :: _ => some (.bool true)
-  | 'i' :: _ => (tailStr s).toInt?.map .int
-  | 'L' :: _ =>
-    match splitFirst (tailStr s) ":" with
-    | some (n, body) =>
-      if n = "0" then some (.strs []) else (body.splitOn ",").mapM unhex |>.map .strs
-    | none => none
-  | 'M' :: _ =>
-    match splitFirst (tailStr s) ":" with
-    | some (n, body) =>
-      if n = "0" then some (.smap []) else
-        ((body.splitOn ",").mapM fun (kv : String) =>
-          match kv.splitOn "~" with
-          | [k, v] => do pure ((← unhex k), (← unhex v))
-          | _ => none) |>.map .smap
-    | none => none
-  | 'q' :: _ =>
-    match splitFirst (tailStr s) ":" with
-    | some (h, b) => do pure (.bw (← unhex h) (← b.toInt?))
-    | none => none
-  | _ => none
-
-def renderValue (v : Value) : String :=
-  match v.canon with
-  | .zero => "z"
-  | .str s => "s" ++ hexOf s
-  | .bool true => "b1"
-  | .bool false => "z"
-  | .int i => "i" ++ toString i
-  | .strs l => s!"L{l.length}:" ++ ",".intercalate (l.map hexOf)
-  | .smap m => s!"M{m.length}:" ++ ",".intercalate (m.map fun (k, v) => hexOf k ++ "~" ++ hexOf v)
-  | .bw s i => "q" ++ hexOf s ++ ":" ++ toString i
-
-def cfOfName (n : String) : Option CF := CF.all.find? (fun f => f.name = n)
-def ptOfName (n : String) : Option PT := PT.all.find? (fun t => t.name = n)
-
-def parseKVs (kvs : List String) : Option (List (CF × Value)) :=
+def parseKVsS (kvs : List String) : Option (List (Str × Value)) :=
   kvs.mapM fun (kv : String) =>
     match splitFirst kv "=" with
-    | some (k, v) => do pure ((← cfOfName k), (← parseValue v))
+    | some (k, v) => do pure (Str.ofString k, (← parseValue v))
     | none => none
 
-def recOf (kvs : List (CF × Value)) : Rec CF := kvs.foldl (fun r (k, v) => r.set k v) Rec.empty
+def recOfS (kvs : List (Str × Value)) : Rec Str := kvs.foldl (fun r (k, v) => r.set k v) Rec.empty
 
-/-- what the JSON wire (omitempty) does to a value: empty slices and maps arrive as nil -/
-def wireNorm : Value → Value
-  | .strs [] => .zero
-  | .smap [] => .zero
-  | v => v
+def implRecOf (impl : String) : Option (List (Str × Value)) :=
+  match impl.splitOn " " with
+  | "ok" :: rest => parseKVsS (rest.filter (· ≠ ""))
+  | _ => none
 
-def mapVals (f : Value → Value) (r : Rec CF) : Rec CF := ⟨r.items.map fun (k, v) => (k, f v)⟩
+def renderKVs (keys : List Str) (get : Str → Value) : String :=
+  " ".intercalate ("ok" :: keys.map fun k => Str.toString k ++ "=" ++ renderValue (get k))
 
-def bwSupported (v : Value) : Bool :=
-  match v with
-  | .bw s _ => parseBW s != .unsupported
-  | _ => true
+/-- the model's answer as a string: the implementation's own line when every listed field agrees
+    up to `nrm`, else the model's rendering -/
+def answer (nrm : Value → Value) (keys : List Str) (get : Str → Value) (implRec : Option (Rec Str)) (impl : String) : String :=
+  match implRec with
+  | some i => if keys.all (fun k => nrm (i.get k).canon == nrm (get k).canon) then impl else renderKVs keys get
+  | none => renderKVs keys get
 
-def rtStep (wire : Bool) (tname : String) (kvs : List String) (impl : String) : Verdict :=
-  match ptOfName tname, parseKVs kvs with
-  | some t, some kv =>
-    let c0 := recOf kv
-    if !bwSupported (c0.get .cTransport_BandwidthLimit) then .skip "bandwidth-literal-outside-model" else
-    let c := if wire then mapVals wireNorm c0 else c0
-    let keys := kv.map (·.1)
-    let typed := decide (c.get .cType = .str t.bytes)
-    let model :=
-      match serverRecon (marshal (marshalTable t) c) with
-      | none => "err:type"
-      | some (t', c') =>
-        if t' ≠ t then "err:othertype:" ++ t'.name
-        else " ".intercalate ("ok" :: keys.map fun k => k.name ++ "=" ++ renderValue (c'.get k))
-    -- the property predicate on the implementation's own reconstruction
-    let prop : Option Bool :=
-      if !typed then none else
-      match impl.splitOn " " with
-      | "ok" :: rest =>
-        match parseKVs rest with
-        | some ikv => some (C18.rtHoldsOn t c (recOf ikv))
-        | none => none
-      | _ => some false
-    verdictOf model impl prop
-  | _, _ => .bad "rt"
+def vtOfName (n : String) : Option VT := VT.all.find? (fun t => t.name = n)
 
-def parseRangeTok (s : String) : Option (List PortsRange) :=
-  if s = "-" then some [] else
-  (s.splitOn ",").mapM fun (p : String) =>
-    match p.splitOn ":" with
-    | [a, b, c] => do pure ⟨(← a.toInt?), (← b.toInt?), (← c.toInt?)⟩
+/-! ### fl / dfl -/
+
+def parseForm : String → Option Form
+  | "e" => some .eq | "s" => some .sp | "b" => some .bare | "h" => some .shEq | "g" => some .shSp
+  | _ => none
+
+def parseArg (t : String) : Option Arg :=
+  match t.splitOn ":" with
+  | [f, n, v] => do pure ⟨(← parseForm f), Str.ofString n, (← unhex v)⟩
+  | _ => none
+
+/-- (registrations of the real command, documented registrations) -/
+def cmdOf (group : String) (ssh : Bool) : Option (List Bound × List Bound) :=
+  if group = "s" then some (serverCmd, C18.expServerCmd)
+  else match splitFirst group ":" with
+    | some ("p", t) => (ptOfName t).map fun t => (proxyCmd t ssh, C18.expProxyCmd t ssh)
+    | some ("v", t) => (vtOfName t).map fun _ => (visitorCmd, C18.expVisitorCmd)
     | _ => none
 
-def renderRanges (rs : List PortsRange) : String :=
-  ",".intercalate (rs.map fun r => s!"{r.start}:{r.stop}:{r.single}")
+def flStep (group ssh : String) (toks : List String) (impl : String) : Verdict :=
+  match cmdOf group (ssh = "1"), toks.mapM parseArg with
+  | some (real, expd), some args =>
+    match run real (!boolFuncIgnoresArg) args with
+    | .unsupported why => .skip why
+    | res =>
+      let ikv := implRecOf impl
+      let keys := (ikv.map fun l => l.map (·.1)).getD []
+      let irec := ikv.map recOfS
+      let model := match res with
+        | .ok r => answer C18.canonE keys (readKey real r) irec impl
+        | _ => "err"
+      verdictOf model impl (C18.flHoldsOn (run expd true args) expd keys irec)
+  | _, _ => .bad "fl"
 
-def renderInts (ns : List Int) : String := ",".intercalate (ns.map toString)
+def sortStrs (l : List String) : List String := (l.toArray.qsort (· < ·)).toList
 
-def parseHexList (s : String) : Option (List Str) :=
-  if s = "-" then some [] else (s.splitOn ",").mapM unhx
+def usgStep (group ssh impl : String) : Verdict :=
+  match cmdOf group (ssh = "1") with
+  | some (real, expd) =>
+    let model := ",".intercalate (sortStrs (real.map usageItem))
+    let items := impl.splitOn ","
+    verdictOf model impl (some (expd.all fun b => items.contains (usageItem b)))
+  | none => .bad "usg"
 
-def step (_ : Unit) (tok : List String) (impl : String) : Unit × Verdict :=
-  ((), match tok with
-  | ["reset"] => verdictOf "-" impl
-  | "rt" :: w :: t :: kvs => rtStep (w = "1") t kvs impl
-  | ["prs", s] =>
+def mismatchTargets (pfx : String) (rs : List Reg) : List String :=
+  (rs.filter fun r => C18.canonE (defaultValue r.kind r.dflt) != C18.canonE (C18.fileDefault (Str.ofString pfx ++ r.target))).map
+    fun r => Str.toString r.target
+
+def sameSet (a b : String) : Bool :=
+  sortStrs ((a.splitOn ",").filter (· ≠ "")) == sortStrs ((b.splitOn ",").filter (· ≠ ""))
+
+/-- the differences the harness reports between "empty argv, then Complete" and "empty file, loaded" -/
+def dflModel (group : List String) : Option String :=
+  let fmt := fun (common own : List String) (tag : String) =>
+    if common.isEmpty && own.isEmpty then "same"
+    else if own.isEmpty then "differ " ++ ",".intercalate common
+    else if common.isEmpty then "differ " ++ ",".intercalate own
+    else "differ " ++ ",".intercalate common ++ ";" ++ tag ++ ":" ++ ",".intercalate own
+  match group with
+  | ["s"] => some (fmt (mismatchTargets "Server." server) [] "")
+  | ["s", "bind"] =>
+    -- the file default of ProxyBindAddr is BindAddr (here 127.0.0.1), the flag default is a constant
+    let pba := server.filter fun r => r.target = Str.ofString "ProxyBindAddr" && r.dflt != Str.ofString "127.0.0.1"
+    some (fmt (pba.map (fun r => Str.toString r.target) ++ (mismatchTargets "Server." server).filter (· ≠ "ProxyBindAddr")) [] "")
+  | [g] =>
+    match splitFirst g ":" with
+    | some ("p", t) => (ptOfName t).map fun t => fmt (mismatchTargets "Client." clientCommon) (mismatchTargets "" (proxyRegs t)) "proxy"
+    | some ("v", t) => (vtOfName t).map fun _ => fmt (mismatchTargets "Client." clientCommon) (mismatchTargets "" visitorBase) "visitor"
+    | _ => none
+  | _ => none
+
+def dflStep (group : List String) (impl : String) : Verdict :=
+  match dflModel group with
+  | some m =>
+    let strip := fun (s : String) => if s.startsWith "differ " then (s.drop 7).toString else s
+    let model := if m.startsWith "differ " && impl.startsWith "differ " && !(impl.contains ';') && !(m.contains ';')
+        && sameSet (strip m) (strip impl) then impl else m
+    verdictOf model impl (some (impl = "same"))
+  | none => .bad "dfl"
+
+/-! ### cf -/
+
+def bwReparse : Value → Value
+  | .bw s _ => bwParse (.str s)
+  | v => v
+
+def cfStep (root via user : String) (kvs : List String) (impl : String) : Verdict :=
+  match splitFirst root ":", unhx user, parseKVsS kvs with
+  | some (kind, tn), some user, some kv =>
+    if kv.any (fun (_, v) => !bwSupported v) then .skip "bandwidth-literal-outside-model" else
+    let text := via ≠ "mem"                    -- the value travels as text (file, JSON, flag)
+    let c := recOfS (kv.map fun (k, v) => (k, if text then bwReparse v else v))
+    let nrm : Value → Value := if via = "js" || via = "flag" then C18.canonE else id
+    let keys := kv.map (·.1)
+    let irec := (implRecOf impl).map recOfS
+    let go := fun (model spec : Str → Value) =>
+      let prop := match irec with
+        | some i => C18.cfHoldsOn spec nrm keys i
+        | none => false
+      verdictOf (answer nrm keys model irec impl) impl (some prop)
+    if kind = "p" then
+      match ptOfName tn with
+      | some _ => go (proxyComplete user c).get (C18.proxySpec user c)
+      | none => .bad "cf: proxy type"
+    else if kind = "v" then
+      match vtOfName tn with
+      | some t => go (visitorComplete t user c).get (closedForm user (C18.expVisitorSteps t) c)
+      | none => .bad "cf: visitor type"
+    else .bad "cf: root"
+  | _, _, _ => .bad "cf"
+
+/-! ### validators -/
+
+def strsOf : Value → List Str
+  | .strs l => l
+  | _ => []
+
+def isAlnum (c : Nat) : Bool := (48 ≤ c && c ≤ 57) || (65 ≤ c && c ≤ 90) || (97 ≤ c && c ≤ 122)
+
+/-- annotation keys inside the fragment that needs no model of IsQualifiedName: a plain name
+    (alphanumeric ends, `-_.` inside, at most 63 bytes), optionally after a lower-case DNS prefix and "/" -/
+def plainAnnKey (k : Str) : Bool :=
+  let name := fun (n : Str) => n ≠ [] && n.length ≤ 63 && isAlnum (n.headD 0) && isAlnum (n.getLastD 0) &&
+    n.all fun c => isAlnum c || c = 45 || c = 95 || c = 46
+  match Str.splitOn 47 k with
+  | [n] => name n
+  | [p, n] => name n && p ≠ [] && p.all (fun c => (97 ≤ c && c ≤ 122) || (48 ≤ c && c ≤ 57) || c = 46) &&
+      isAlnum (p.headD 0) && isAlnum (p.getLastD 0) && !(Validate.contains p [46, 46])
+  | _ => false
+
+def pkindOf : String → Option PKind
+  | "tcp" => some .tcp | "udp" => some .udp | "tcpmux" => some .tcpmux | "http" => some .http
+  | "https" => some .https | "stcp" => some .stcp | "xtcp" => some .xtcp | "sudp" => some .sudp
+  | _ => none
+
+def S (s : String) : Str := Str.ofString s
+
+def cvalStep (root : String) (kvs : List String) (impl : String) : Verdict :=
+  match splitFirst root ":", parseKVsS kvs with
+  | some ("p", tn), some kv =>
+    match pkindOf tn with
+    | none => .bad "cval: type"
+    | some k =>
+      let c := recOfS kv
+      let annKeys : List Str := match c.get (S "Annotations") with | .smap m => m.map (fun (p : Str × Str) => p.1) | _ => []
+      if !(annKeys.all fun a => plainAnnKey (Str.toLower a)) then .skip "annotation-key-outside-model" else
+      let v : ProxyView := {
+        name := asStr (c.get (S "Name")), proxyProtocolVersion := asStr (c.get (S "Transport.ProxyProtocolVersion")),
+        bandwidthLimitMode := asStr (c.get (S "Transport.BandwidthLimitMode")), pluginType := [],
+        localPort := asInt (c.get (S "LocalPort")), healthCheckType := asStr (c.get (S "HealthCheck.Type")),
+        healthCheckPath := asStr (c.get (S "HealthCheck.Path")), subDomain := asStr (c.get (S "SubDomain")),
+        customDomains := strsOf (c.get (S "CustomDomains")), multiplexer := asStr (c.get (S "Multiplexer")) }
+      let model := match validateProxyForClient k v with
+        | none => "ok" | some .name => "name" | some .ppv => "ppv" | some .bwmode => "bwmode" | some .port => "port"
+        | some .hctype => "hctype" | some .hcpath => "hcpath" | some .domains => "domains" | some .mux => "mux"
+      verdictOf model impl (some (C18.clientHoldsOn k v (impl = "ok")))
+  | some ("v", tn), some kv =>
+    match vtOfName tn with
+    | none => .bad "cval: visitor type"
+    | some t =>
+      let c := recOfS kv
+      let x := t.name = "xtcp"
+      let name := asStr (c.get (S "Name"))
+      let sname := asStr (c.get (S "ServerName"))
+      let port := asInt (c.get (S "BindPort"))
+      let proto := asStr (c.get (S "Protocol"))
+      let model := match validateVisitor x name sname port proto with
+        | none => "ok" | some .name => "name" | some .serverName => "sname" | some .bindPort => "bport" | some .protocol => "proto"
+      verdictOf model impl (some (C18.visitorHoldsOn x name sname port proto (impl = "ok")))
+  | _, _ => .bad "cval"
+
+def serverErrTag : ServerErr → String
+  | .auth => "auth" | .scopes => "scopes" | .log => "log" | .cert => "cert" | .key => "key"
+  | .port 0 => "port:webServer.port" | .port 1 => "port:bindPort" | .port 2 => "port:kcpBindPort"
+  | .port 3 => "port:quicBindPort" | .port 4 => "port:vhostHTTPPort" | .port 5 => "port:vhostHTTPSPort"
+  | .port _ => "port:tcpMuxHTTPConnectPort"
+
+def svalStep (kvs : List String) (impl : String) : Verdict :=
+  match parseKVsS kvs with
+  | some kv =>
+    let c := recOfS kv
+    let v : ServerView := {
+      authMethod := asStr (c.get (S "Auth.Method")), scopes := strsOf (c.get (S "Auth.AdditionalScopes")),
+      logLevel := asStr (c.get (S "Log.Level")),
+      webTLS := if c.get (S "WebServer.TLS") = .bool true
+        then some (asStr (c.get (S "WebServer.TLS.CertFile")), asStr (c.get (S "WebServer.TLS.KeyFile"))) else none,
+      webPort := asInt (c.get (S "WebServer.Port")), bindPort := asInt (c.get (S "BindPort")),
+      kcpBindPort := asInt (c.get (S "KCPBindPort")), quicBindPort := asInt (c.get (S "QUICBindPort")),
+      vhostHTTPPort := asInt (c.get (S "VhostHTTPPort")), vhostHTTPSPort := asInt (c.get (S "VhostHTTPSPort")),
+      tcpmuxPort := asInt (c.get (S "TCPMuxHTTPConnectPort")) }
+    let errs := validateServer v
+    let model := if errs.isEmpty then "ok" else ",".intercalate (errs.map serverErrTag)
+    verdictOf model impl (some (C18.serverHoldsOn v (impl = "ok")))
+  | none => .bad "sval"
+
+def stepExt (tok : List String) (impl : String) : Option Verdict :=
+  match tok with
+  | "fl" :: g :: ssh :: args => some (flStep g ssh args impl)
+  | "dfl" :: g => some (dflStep g impl)
+  | ["usg", g, ssh] => some (usgStep g ssh impl)
+  | "cf" :: root :: via :: _strict :: user :: kvs => some (cfStep root via user kvs impl)
+  | "cval" :: root :: kvs => some (cvalStep root kvs impl)
+  | "sval" :: kvs => some (svalStep kvs impl)
+  | ["nr", s] =>
     match unhx s with
     | some s =>
-      if !Str.isAscii s then .skip "non-ascii" else
-      verdictOf (match parseRanges s with | some rs => "ok " ++ renderRanges rs | none => "err") impl
-    | none => .bad "prs"
-  | ["prstr", rs] =>
-    match parseRangeTok rs with
-    | some rs =>
-      let prop := (unhx impl).map fun out => C18.printHoldsOn rs out
-      verdictOf (hx (printRanges rs)) impl prop
-    | none => .bad "prstr"
-  | ["prrt", rs] =>
-    match parseRangeTok rs with
-    | some rs =>
-      let model := match parseRanges (printRanges rs) with | some r => "ok " ++ renderRanges r | none => "err"
-      -- the round trip as a predicate on the implementation's answer
-      let prop := C18.rtRangesHoldsOn rs (if impl = "ok " ++ renderRanges rs then some rs else none)
-      verdictOf model impl (some prop)
-    | none => .bad "prrt"
-  | ["prn", s] =>
-    match unhx s with
-    | some s =>
-      if !Str.isAscii s then .skip "non-ascii" else
-      verdictOf (match parseRangeNumbers s with | some ns => "ok " ++ renderInts ns | none => "err") impl
-    | none => .bad "prn"
-  | ["pair", a, b] =>
+      if !Str.isAscii s then some (.skip "non-ascii") else
+      -- the template function enumerates exactly what util.ParseRangeNumbers does
+      let model := match parseRangeNumbers s with | some ns => "ok " ++ renderInts ns | none => "err"
+      some (verdictOf model impl (some (impl = model)))
+    | none => some (.bad "nr")
+  | ["bweq", a, b] =>
     match unhx a, unhx b with
     | some a, some b =>
-      if !Str.isAscii a || !Str.isAscii b then .skip "non-ascii" else
-      verdictOf (match parseNumberRangePair a b with
-        | some ps => "ok " ++ ",".intercalate (ps.map fun (x, y) => s!"{x}:{y}")
-        | none => "err") impl
-    | _, _ => .bad "pair"
-  | ["bw", s] =>
-    match unhx s with
-    | some s =>
-      if !Str.isAscii s then .skip "non-ascii" else
-      match parseBW s with
-      | .unsupported => .skip "float-syntax-outside-model"
-      | r =>
-        let model := match r with
-          | .ok s' b => s!"ok {hx s'} {b}"
-          | .empty => "ok x 0"
-          | _ => "err"
-        -- the textual form the implementation reports re-parses to the same quantity
-        let prop : Option Bool :=
-          match impl.splitOn " " with
-          | ["ok", s', b] =>
-            match unhx s', b.toInt? with
-            | some s', some b => some (C18.bwHoldsOn s' b)
-            | _, _ => none
-          | _ => none
-        verdictOf model impl prop
-    | none => .bad "bw"
-  | ["port", p] =>
-    match p.toInt? with
-    | some p => verdictOf (if validatePort p then "ok" else "err") impl (some (C18.portHoldsOn p (impl = "ok")))
-    | none => .bad "port"
-  | ["dom", h, s, ds, uc] =>
-    match unhx h, unhx s, parseHexList ds with
-    | some h, some s, some ds =>
-      let hasUpper := (h :: ds).any (fun n => n.any (fun c => 65 ≤ c && c ≤ 90))
-      if uc ≠ (if hasUpper then "uc=1" else "uc=0") then .bad "dom: uc flag does not match the names" else
-      let model := match validateDomainCurrent h ds s with
-        | none => "ok"
-        | some .belongs => "belongs"
-        | some .noSubHost => "nosub"
-        | some .badChars => "chars"
-      let prop := if Str.isAscii h && ds.all Str.isAscii then some (C18.domainHoldsOn h ds (impl = "ok")) else none
-      verdictOf model impl prop
-    | _, _, _ => .bad "dom"
-  | ["fmt", _, strict, inj] =>
-    -- differential only: the three third-party parsers are not modelled
-    let want := if strict = "1" && inj = "1" then "same err" else "same ok"
-    verdictOf want impl (some (impl = want))
-  | ["tmpl", _] => verdictOf "same" impl (some (impl = "same"))
-  | _ => .bad "op")
+      if !Str.isAscii a || !Str.isAscii b then some (.skip "non-ascii")
+      else if parseBW a = .unsupported || parseBW b = .unsupported then some (.skip "float-syntax-outside-model")
+      else
+        -- Equal ⇔ the same number of bytes
+        let model := match C18.bwEqual a b with | some true => "eq" | some false => "ne" | none => "err"
+        some (verdictOf model impl (some (impl = model)))
+    | _, _ => some (.bad "bweq")
+  | [op, _, _, strict, inj] =>
+    if op = "load" || op = "sload" then
+      let want := if strict = "1" && inj = "1" then "same err" else "same"
+      some (verdictOf want impl (some (impl = want)))
+    else none
+  | [op, _] => if op = "sx" || op = "cx" then some (verdictOf "same" impl (some (impl = "same"))) else none
+  | ["env"] => some (verdictOf "same" impl (some (impl = "same")))
+  | _ => none
+
+def stepAll (s : Unit) (tok : List String) (impl : String) : Unit × Verdict :=
+  match stepExt tok impl with
+  | some v => ((), v)
+  | none => step s tok impl
 
 end Conf
 
-def conf : Engine := { State := Unit, init := (), step := Conf.step }
+def conf : Engine := { State := Unit, init := (), step := Conf.stepAll }
 
 end Engines
 end Frp
